@@ -101,6 +101,11 @@ func lower(s string) string { return string(bytes.ToLower([]byte(s))) }
 var Benign = [][]string{
 	{"}", ";"}, // (only used at top level: inside a block it would close the block)
 	{")", ";"}, {"]", ";"}, {"=", "1", ";"}, {"=>", ";"}, {"*", ";"}, {"$x", "=", ";"}, {"foo", "(", ";"}, {"$y", "->", ";"}, {"1", "+", ";"}, {",", ";"}, {"$z", "[", ";"}, {"?", ";"}, {":", ";"}, {"=", ";"}, {")", ")", ";"}, {"%", "3", ";"},
+	// malformed statements that begin like a well-formed one: the error is met while a statement keyword and its
+	// parenthesis are on the parser stack (brackets balanced: an unbalanced one is not benign inside a block; no
+	// 'else', which would extend a preceding if)
+	{"if", "(", "$c", ")", "foo", "bar", ";"}, {"while", "(", "$c", ")", "foo", "bar", ";"},
+	{"for", "(", ";", ";", ")", "foo", "bar", ";"}, {"echo", "1", "2", ";"}, {"$x", "=", "new", ";"}, {"foreach", "(", "$c", "as", ")", "g", "(", ")", ";"},
 }
 
 // StmtListKinds: kinds whose Stmts list is a statement list with an error production.
